@@ -63,3 +63,23 @@ func ref_WithArgs(src *Row, owner string) *Entry {
 	dst.Lvl = src.Name
 	return dst
 }
+
+// ThroughPointer: nothing to convert when a pointer on the path is nil.
+func ref_ThroughPointer(src *Deep) *Flat {
+	dst := &Flat{Name: src.Name}
+	if src.Inner != nil && src.Inner.Addr != nil {
+		dst.Other = ref_ToAddrRow(src.Inner.Addr)
+	}
+	return dst
+}
+
+func (e *Node) ref_Clone() *Node {
+	elem := &Node{Name: e.Name}
+	if e.Sub != nil {
+		elem.Sub = make([]*Node, len(e.Sub))
+		for k := range e.Sub {
+			elem.Sub[k] = e.Sub[k]
+		}
+	}
+	return elem
+}
